@@ -39,7 +39,7 @@ ASSUMPTIONS = ["'a single line' = no CR / LF in the rendered record"]
 OUTSIDE = ["gevent/eventlet", "custom logger classes", "the error log", "syslog / dogstatsd transports"]
 
 REQ = b"GET /a?b HTTP/1.1\r\nHost: h\r\n\r\n"
-MODES = ["iter", "write", "file", "filenofd", "raise_before", "raise_first", "raise_mid"]
+MODES = ["iter", "write", "file", "filenofd", "raise_before", "raise_first", "raise_mid", "late_error", "early_error"]
 
 
 def _serve(kind, w, c):
@@ -51,10 +51,10 @@ def _serve(kind, w, c):
 
 def once(mi: int, cl: int, n1: int, n2: int) -> bool:
     """
-    pre: 0 <= mi <= 6 and -1 <= cl <= 3 and 0 <= n1 <= 2 and 0 <= n2 <= 2
+    pre: 0 <= mi <= 8 and -1 <= cl <= 3 and 0 <= n1 <= 2 and 0 <= n2 <= 2
     post: __return__
     """
-    mode = MODES[pick(mi, 0, 6)]
+    mode = MODES[pick(mi, 0, 8)]
     cl, n1, n2 = pick(cl, -1, 3), pick(n1, 0, 2), pick(n2, 0, 2)
     short = cl > n1 + n2               # the application declares more than it delivers: framing is its problem (C02 assumes
     if short and cl > n1 + n2 + 1:     # it away), but the log must still report what was really sent
@@ -67,6 +67,19 @@ def once(mi: int, cl: int, n1: int, n2: int) -> bool:
         hdrs = [("Content-Type", "text/plain")] + ([("Content-Length", str(cl))] if cl >= 0 else [])
         if mode == "raise_before":
             raise ValueError("app blew up")
+        if mode in ("late_error", "early_error"):
+            # the application reports an error through start_response(..., exc_info): before anything was sent the new
+            # status replaces the old one; after the head went out the call re-raises, which this application swallows -
+            # either way the record must carry the status that is on the wire
+            wr = start_response("200 OK", hdrs)
+            if mode == "late_error" and chunks[0]:
+                wr(chunks[0])
+            try:
+                start_response("500 Oops", hdrs, (ValueError, ValueError("late"), None))
+            except ValueError:
+                pass
+            completed.append(1)
+            return [chunks[1]] if mode == "late_error" else chunks
         if mode == "write":
             wr = start_response("200 OK", hdrs)
             for ch in chunks:
@@ -224,6 +237,8 @@ def render(source, s, fmt):
         environ["REQUEST_METHOD"] = s
     elif source == "remote_addr":
         environ["REMOTE_ADDR"] = s
+    elif source == "authorization":
+        environ["HTTP_AUTHORIZATION"] = s
     elif source == "user":
         environ["HTTP_AUTHORIZATION"] = "Basic " + base64.b64encode((s + ":pw").encode("utf-8", "surrogatepass")).decode()
     resp = SimpleNamespace(status="200 OK", sent=5, headers=resp_headers)
@@ -259,6 +274,22 @@ def line_user(i1: int, i2: int, i3: int) -> bool:
     return "\n" not in out and "\r" not in out
 
 
+AUTH_VALUES = ["Basic", "basic", "Negotiate", "Basic ", " Basic", "Basic  ", "Basic !!!", "Basic YTpi", "Basic\tYTpi", "BasicYTpi",
+               "Bearer x y", "", " ", "Basic YTpi extra", "Basic =", "Digest username=\"a\"", "Basic Og==", "Basic 4pyT"]
+
+
+def auth_values(i: int) -> bool:
+    """
+    pre: 0 <= i < len(AUTH_VALUES)
+    post: __return__
+    """
+    # whatever the client puts into Authorization (any scheme, one token or several, broken base64): the record is still
+    # produced - atoms() does not raise - and stays on one line
+    i = pick(i, 0, len(AUTH_VALUES) - 1)
+    out = render("authorization", AUTH_VALUES[i], "%(u)s|%(h)s %(l)s %(u)s \"%(r)s\" %(s)s %(b)s")
+    return "\n" not in out and "\r" not in out and out.count("|") == 1
+
+
 def line_twin(s: str) -> bool:
     """
     pre: len(s) == CASE["n"]
@@ -268,14 +299,14 @@ def line_twin(s: str) -> bool:
     return "\\n" not in out            # witness: an LF reached the atom and was escaped
 
 
-_LINE = [("raw_uri", "r"), ("raw_uri", "{raw_uri}e"), ("query", "q"), ("path", "U"), ("referer", "f"), ("user_agent", "a"),
+_LINE = [("authorization", "u"), ("raw_uri", "r"), ("raw_uri", "{raw_uri}e"), ("query", "q"), ("path", "U"), ("referer", "f"), ("user_agent", "a"),
          ("req_header", "{x-h}i"), ("resp_header", "{x-o}o"), ("environ", "{xvar}e"), ("method", "m"), ("method", "r"),
          ("remote_addr", "h")]
 
 
 OBLIGATIONS = [
     Ob("C19.once", "once", cases=[{"kind": k} for k in ("sync", "gthread", "async")], timeout=1800,
-       bound="7 application behaviours x Content-Length{none,0..3} x 2 chunks of 0..2 bytes x each worker class"),
+       bound="9 application behaviours x Content-Length{none,0..3} x 2 chunks of 0..2 bytes x each worker class"),
     Ob("C19.once.twin", "once_twin", cases=[{"kind": "sync"}], expect="refute", timeout=300),
     Ob("C19.rejected", "rejected", cases=[{"kind": k} for k in ("sync", "gthread", "async")], timeout=600,
        bound="6 malformed / truncated heads x each worker class: no application call, at most one access record"),
@@ -285,6 +316,8 @@ OBLIGATIONS = [
                                   "thorough": [{"source": s, "atom": a, "n": 3} for s, a in _LINE]},
        timeout={"quick": 900, "thorough": 3000},
        bound="each client-influenced source carrying 2 (thorough 3) arbitrary unicode characters, rendered through its atom"),
+    Ob("C19.auth_values", "auth_values", timeout=300,
+       bound="18 Authorization header values (one token, several tokens, other schemes, broken base64, empty user)"),
     Ob("C19.line.twin", "line_twin", cases=[{"source": "referer", "atom": "f", "n": 2}], expect="refute", timeout=120),
     Ob("C19.line_user", "line_user", cases={"quick": [{"n": 2}], "thorough": [{"n": 3}]}, timeout=900,
        bound="basic-auth user of 2 (thorough 3) characters from {a : LF CR \" e-acute NUL backslash % U+2028} through the real "
